@@ -87,7 +87,7 @@ def dedup(obs):
     seen = set()
     out = []
     for o in obs:
-        k = (o.rule, o.fn.qname if o.fn is not None else '', o.node if o.fn is None else o.fn.n(o.node)['l'] if o.node else 0,
+        k = (o.rule, o.fn.qname if o.fn is not None else str((o.detail or {}).get('record', '')) + str(o.found)[:200], o.node if o.fn is None else o.fn.n(o.node)['l'] if o.node else 0,
              o.arm, o.status, str(o.found))
         if k in seen:
             continue
